@@ -19,6 +19,9 @@ Definition Ratan2 (y x : R) : R :=
   else if Rlt_dec y 0 then - PI / 2
   else 0.
 
+(* math.Mod: x - y * trunc(x / y), sign of x *)
+Definition Rfmod (x y : R) : R := x - y * IZR (Rtrunc (x / y)).
+
 Definition Rmaxfloat : R := IZR (2 ^ 1024 - 2 ^ 971).
 
 Definition ROps : Ops := {|
@@ -28,7 +31,7 @@ Definition ROps : Ops := {|
   oltb := Rltb; oleb := Rleb; oeqb := Reqb;
   omin := Rmin; omax := Rmax;
   ofZ := IZR; otoZ := Rtrunc;
-  ofloor := Rfloor; oceil := Rceil;
+  ofloor := Rfloor; oceil := Rceil; ofmod := Rfmod;
   osin := Rtrigo_def.sin; ocos := Rtrigo_def.cos; otan := Rtrigo1.tan;
   oatan := Ratan.atan; oatan2 := Ratan2; oacos := Ratan.acos;
   opi := PI;
